@@ -25,3 +25,26 @@ package paths
 
 //@ func splitSegments props C15,C14
 //@ ensures implies(p == "/" || p == "", len(result) == 0)
+
+//@ func normalizePath props C15,C14
+//@ ensures true
+
+//@ func trimParamName props C15,C14
+//@ ensures true
+
+// The trie walk helpers index the stored endpoint's segments at the new entry's position: safe because a
+// conflict implies equal segment counts.
+//@ func collectEndpointsByMethod trusted
+//@ ensures fresh(result) && forall(i, 0, len(result), result[i] != nil)
+
+//@ func reportParamVsParam props C15,C14
+//@ requires conflicts != nil && seen != nil && 0 <= idx && idx < len(newSegments)
+//@ modifies *conflicts, any(elems(*conflicts)), elems(seen)
+
+//@ func reportLiteralVsParam props C15,C14
+//@ requires conflicts != nil && seen != nil && 0 <= idx && idx < len(newSegments)
+//@ modifies *conflicts, any(elems(*conflicts)), elems(seen)
+
+//@ func reportParamVsLiterals props C15,C14
+//@ requires conflicts != nil && seen != nil
+//@ modifies *conflicts, any(elems(*conflicts)), elems(seen)
